@@ -70,6 +70,13 @@ def gen_cases(tier, seed):
         # steeply decaying spectra with tolerances down to 1e-6: eigenvalues far below 1e-8 of the largest still decide the ranks
         for tol in (1e-6, 1e-5, 1e-4, 1e-3):
             yield C(w="hosvd_grid", fam="steep", shape=shape, dseed=dseed, tol=tol, sequential=bool(rng.integers(0, 2)), dimorder=None)
+        # structured exact zeros in the data (eigenvectors with exact zero entries)
+        for tol in (1e-8, 0.05, 0.3):
+            for seq in (True, False):
+                yield C(w="hosvd_grid", fam="structured-zeros", shape=shape, dseed=dseed + int(tol * 100), tol=tol, sequential=seq, dimorder=None)
+        # the flag as callers produce it: a NumPy boolean from a comparison, 0 / 1
+        for seqv in ("np.False_", "np.True_", 0, 1):
+            yield C(w="hosvd_grid", fam=fam, shape=shape, dseed=dseed, tol=[1e-9, 0.2][int(rng.integers(0, 2))], sequential=seqv, dimorder=None)
         # element type of the stored data: the bound and the structural contract do not depend on it
         for st in ("float32", "int32", "uint8", "int16"):
             for tol in (1e-6, 1e-4, 0.05, 0.4):
@@ -150,6 +157,23 @@ def _data0(case):
             scale = ((0.45 if case["fam"] == "designed" else 0.04) ** np.arange(s)).reshape([-1 if k == n else 1 for k in range(len(shape))])
             core = core * scale
         A = refops.ttm(core, U, list(range(len(shape))))
+    elif case["fam"] == "structured-zeros":
+        # data with exact zeros in structured places: an all-zero leading slice, decoupled blocks, a superdiagonal that is not sorted
+        kind = case["dseed"] % 3
+        A = rng.standard_normal(shape)
+        if kind == 0:
+            idx = [slice(None)] * len(shape)
+            idx[case["dseed"] % len(shape)] = 0
+            A[tuple(idx)] = 0.0
+        elif kind == 1:
+            A = np.zeros(shape)
+            h = [max(1, s_ // 2) for s_ in shape]
+            A[tuple(slice(0, h_) for h_ in h)] = rng.standard_normal(h)
+            A[tuple(slice(h_, None) for h_ in h)] = rng.standard_normal([s_ - h_ for s_, h_ in zip(shape, h)])
+        else:
+            A = np.zeros(shape)
+            for i_ in range(min(shape)):
+                A[(i_,) * len(shape)] = [2.0, 5.0, 3.0, 1.0, 4.0][i_ % 5]
     elif case["fam"] == "lowrank-noise":
         # (almost) exactly of the requested multilinear rank: residuals between rounding level and 1e-4 of the data norm
         ranks = case["ranks"]
@@ -206,7 +230,9 @@ def run_case(case, ctx):
             ctx.feat(side=case["side"])
         else:
             tol = case["tol"]
-        r = ctx.call("hosvd", _quiet, ttb.hosvd, X, tol, verbosity=0, sequential=case["sequential"], **({} if do is None else {"dimorder": do}))
+        seqarg = {"np.False_": np.False_, "np.True_": np.True_}.get(case["sequential"], case["sequential"]) if isinstance(case["sequential"], str) else case["sequential"]
+        ctx.feat(seq_type=type(seqarg).__name__)
+        r = ctx.call("hosvd", _quiet, ttb.hosvd, X, tol, verbosity=0, sequential=seqarg, **({} if do is None else {"dimorder": do}))
         if not r.ok:
             ctx.check(False, "hosvd", "RAISE:" + type(r.exc).__name__, f"{type(r.exc).__name__}: {r.exc} | {r.tb}")
             return
